@@ -177,7 +177,7 @@ def execute(case, chooser, visited=None, rolling=None):
             pre_coins[i] = Coin(ABANDON_AMOUNT, 'conf', 'claim', ('pre',), 2)
             coins.append(pre_coins[i])
     h = WalletH(coins, strategy=case['strategy'], atomic_jobs=False, perm=case.get('perm', 0),
-                second_account=any('b' in f for f in fundings))
+                second_account=any('b' in f for f in fundings), layout=case.get('layout', 'one'))
     log = hashlib.blake2b(digest_size=12)
     violations = []
     events = 0
@@ -694,7 +694,7 @@ def gen_cases(tier):
     cases = []
 
     def add(n, sets, strategies, ovs, cancel=None, late=None, bound=None, cross_check=False, source=None, sync=None,
-            funding=None):
+            funding=None, layout=None):
         for entry in (source or utxo_sets(n)):
             name, coins, pay = entry[:3]
             if sets is not None and name not in sets:
@@ -706,6 +706,8 @@ def gen_cases(tier):
                          'cross_check': cross_check}
                     if len(entry) > 3:
                         c['shapes'] = entry[3]
+                    if layout is not None:
+                        c['layout'] = layout
                     if sync is not None:
                         c['sync'] = sync
                     if funding is not None:
@@ -778,6 +780,13 @@ def gen_cases(tier):
             add(2, ['U1+n-1_coins'], two, [['release', 'release']], cancel=0, source=multi_round_sets(2, shape))
             add(3, None, two, [['hold', 'release', 'release']], late=2, source=multi_round_sets(3, shape))
             add(4, ['U1+n-1_coins'], two, [['release'] * 4], source=multi_round_sets(4, shape))
+    # ---- funding layout: the same coins spread over funding transactions in different ways; each build needs >= 3 coins
+    for layout in ('one', 'per-coin', 'interleaved', 'pairs'):
+        src = [('1-4-2-10-10', [COIN, 4 * COIN, 2 * COIN, 10 * COIN, 10 * COIN], 4 * COIN + COIN // 2),
+               ('1-1-4-2-6', [COIN, COIN, 4 * COIN, 2 * COIN, 6 * COIN], 2 * COIN + COIN // 2)]
+        add(2, None, ['sqlite', 'prefer_confirmed', 'standard'] if quick else ALL_STRATEGIES,
+            [['release', 'release']] if quick else [['release', 'release'], ['hold', 'hold'], ['release', 'bcast_fail']],
+            source=src, layout=layout)
     # ---- wallet sync re-saves the funding transactions while builds run / hold (any writer of the txo table must
     #      preserve reservations): the sync task starts at any iteration boundary, its database calls interleave
     for mode in ('same', 'confirm', 'reorg'):
@@ -904,7 +913,7 @@ def explore_case(case, res, cross_check=False):
         for _ in range(n):
             res.violation(sig, what, {'case': case, 'choices': choices})
     res.distinct_add('nontrivial', (case['n'], case['set'], case['strategy'], tuple(case['outcomes']), case['cancel'],
-                                    case['late'], tuple(case.get('shapes') or ()), case.get('sync'),
+                                    case['late'], tuple(case.get('shapes') or ()), case.get('sync'), case.get('layout'),
                                     repr(case.get('funding'))))
     res.count('evaluations')
     res.distinct_add('distinct_outcomes', (case['n'], case['set'], case['strategy'], tuple(sorted(seen['outcomes']))))
@@ -1024,7 +1033,7 @@ def replay(data):
     case, choices = data['case'], data['choices']
     ch = Chooser(choices)
     obs = execute(case, ch)
-    lines = [f"case: N={case['n']} coins={case['coins']} pay={case['pays'][0]} shapes={case.get('shapes')} funding={case.get('funding')} sync={case.get('sync')} strategy={case['strategy']} "
+    lines = [f"case: N={case['n']} coins={case['coins']} pay={case['pays'][0]} shapes={case.get('shapes')} funding={case.get('funding')} sync={case.get('sync')} layout={case.get('layout')} strategy={case['strategy']} "
              f"outcomes={case['outcomes']} cancel={case['cancel']} late={case['late']}",
              f"choices: {choices}", f"start order: {obs['order']}", f"final: {obs['summary']}"]
     for t in ch.trace:
